@@ -104,7 +104,7 @@ def parse(text: str) -> list:
     i = 0
     while i < len(lines):
         ln = lines[i]
-        mc = re.match(r"^const ([\w:]+): (.*) = \{$", ln)
+        mc = re.match(r"^const (.*?(?:::promoted\[\d+\]|\b[A-Z][A-Z_0-9]*)): (.*) = \{$", ln)
         if mc:
             # a constant item with a body: parsed like a nullary function named `const <NAME>`
             lines[i] = ln = f"fn const {mc.group(1)}() -> {mc.group(2)} {{"
